@@ -271,8 +271,12 @@ def sym_trace(ctx, limit, timeout, tokens):
         p = t.split(':')
         if p[0] == 'ready': w.ready(int(p[1]))
         elif p[0] == 'call': w.call()
-        elif p[0] == 'poll': w.poll(int(p[1]), p[2])
-        elif p[0] == 'drop': w.drop(int(p[1]))
+        elif p[0] in ('poll', 'drop'):
+            # the random generator does not know that a future polled with a Pending handshake answer may still have
+            # completed (timeout): such a schedule would poll / drop a finished future, which is not a schedule of the property
+            if not w.futs[int(p[1])]['alive']: return None
+            if p[0] == 'poll': w.poll(int(p[1]), p[2])
+            else: w.drop(int(p[1]))
         elif p[0] == 'tick': w.tick(int(p[1]))
     return ' '.join(w.out)
 
